@@ -126,7 +126,7 @@ Theorem contract_out s sp q buf sc t :
 Proof.
   intros Hur Hsp Hw Hfree. use_mk s Hur. destruct (ready_access K s sp q buf Hur) as [Hpc Hacc].
   destruct (putc_call K sc t 0 false m r0 r1 r2 r3 r4 r5 r6 r7 (s_pc s) (s_psr s) (new_init sp) (s_frame_no s) (s_frames s) (s_instrs s)
-              (s_prefetch s) (s_obs s) (s_mcr s) q buf sp) as (m' & ins' & obs' & Hrun & Hmeo).
+              (s_prefetch s) (s_obs s) (s_mcr s) q buf sp) as (m' & ins' & obs' & Hrun & Hmeo & _).
   { rewrite (ur_user _ _ _ _ Hur). reflexivity. } { exact Hsp. } { subst m. exact (ur_os _ _ _ _ Hur). }
   { exact Hpc. } { exact Hacc. } { subst m. exact Hw. } { exact (ur_fno _ _ _ _ Hur). }
   { intros i Hi. lia. }
